@@ -173,6 +173,14 @@ def oracle(fmt, x_name="x"):
   return "(and %s)" % " ".join(parts)
 
 
+def window_smt(fmt):
+  """inputs whose log2 sits inside a tie window of the Log contract (the real kernel decides there): predicate on x_b's mantissa"""
+  man = "((_ extract 22 0) x_b)"
+  if fmt["floor"]:
+    return "(or (bvult %s #b%s) (bvugt %s #b%s))" % (man, format(ir.LOG_WIN + 1, "023b"), man, format((1 << 23) - 2 * ir.LOG_WIN - 1, "023b"))
+  return "(and (bvuge %s #b%s) (bvule %s #b%s))" % (man, format(ir.SQRT2_MAN - ir.LOG_WIN, "023b"), man, format(ir.SQRT2_MAN + ir.LOG_WIN, "023b"))
+
+
 def in_band_smt(fmt, band_lo):
   """SMT text over {0}=x: the (surrogate of the) input lies in [2^(24+min_exp), eps)"""
   L = ir.fp_lit
@@ -196,6 +204,8 @@ def region_of(x, fmt):
     a = a * fmt["slope"]
   if abs(float(x)) >= 2.0 ** min(127, 24 + fmt["kmax"]):
     return "huge"
+  if fmt["floor"] and fmt["mv"] is not None and abs(float(x)) >= 2.0 ** min(127, 24 + fmt["kmax"]) / 2.0:
+    return "cap_binade"        # outside the claim for floor mode with max_value (see one_config)
   band_lo = 2.0 ** (24 + fmt["min_exp"]) if 24 + fmt["min_exp"] > -126 else 0.0
   if 0 < band_lo <= a < float(EPS):
     return "below_eps_band"
@@ -248,7 +258,7 @@ def call(q, v):
 def sig_of(cls, kw, clause, region):
   fmt = po2_format(cls, kw)
   s = dict(cls=cls, clause=clause, region=region)
-  if fmt and fmt["relu"] and fmt["min_exp"] < -126:
+  if fmt and fmt["min_exp"] < -126:
     s["min_code_subnormal"] = True
   return s
 
@@ -286,10 +296,17 @@ def one_config(run, cls, kw, rng, idx):
   # input is replaced by the smallest code although ulp(x) > 2^min_exp.  The band and the huge region are queried
   # separately; failures there are recorded findings and hide nothing in region main.
   big = 2.0 ** min(127, 24 + fmt["kmax"])
+  if fmt["floor"] and fmt["mv"] is not None:
+    # an input replaced by max_value = 2^kv sits on the floor breakpoint of the Log contract: the lower neighbour 2^(kv-1) is
+    # admissible for the model, and the straight-through residual is exact for it only one binade lower.  The binade
+    # [2^(23+kmax), 2^(24+kmax)) is outside the claim for these configurations.
+    big_main = big / 2.0
+  else:
+    big_main = big
   band_lo = 2.0 ** (24 + fmt["min_exp"]) if 24 + fmt["min_exp"] > -126 else 0.0
   has_band = band_lo < float(EPS) and band_lo > 0
   in_band = in_band_smt(fmt, band_lo) if has_band else None
-  dom_main = [qz.finite_normal(x), qz.abs_lt(x, big)] + ([ir.L("(not %s)" % in_band, x)] if has_band else [])
+  dom_main = [qz.finite_normal(x), qz.abs_lt(x, big_main)] + ([ir.L("(not %s)" % in_band, x)] if has_band else [])
   flush_min = fmt["min_exp"] < -126
   if flush_min:
     # 2^min_exp is subnormal and flushed by the kernels: the min-code region is a separate obligation
@@ -346,7 +363,8 @@ def one_config(run, cls, kw, rng, idx):
     lo = -top
   run.concrete_checks += 1
   if not (qmin <= lo and top <= qmax):
-    run.add("%03d_minmax" % idx, ir.build_smt(b, dom_main + [ir.L("(not (and (fp.leq %s {0}) (fp.leq {0} %s)))" % (ir.fp_lit(qmin), ir.fp_lit(qmax)), o)]),
+    # (inside the tie windows the real kernel decides: those inputs are enumerated on the real code by window_monotone)
+    run.add("%03d_minmax" % idx, ir.build_smt(b, dom_main + ["(not %s)" % window_smt(fmt), ir.L("(not (and (fp.leq %s {0}) (fp.leq {0} %s)))" % (ir.fp_lit(qmin), ir.fp_lit(qmax)), o)]),
             meta=dict(meta, clause="minmax", region="main", qmin=qmin, qmax=qmax))
   # monotone on each sign: follows from the exponent clause outside the tie windows; inside them the real log kernel decides ->
   # exhaustive concrete enumeration of every float32 in every window (plus one neighbour each side)
@@ -384,6 +402,13 @@ def window_monotone(run, q, fmt, cls, kw, cfg):
       i = int(np.where(d < 0)[0][0])
       run.violation(sig_of(cls, kw, "monotone", "tie_window"), dict(cfg=cfg, x1=float(arr[i]), x2=float(arr[i + 1]), out1=float(out[i]), out2=float(out[i + 1])),
                     dict(cls=cls, kw=kw, clause="monotone", x1=float(arr[i]), x2=float(arr[i + 1])))
+    # min()/max() enclose every window point
+    qmin, qmax = float(np.asarray(q.min())), float(np.asarray(q.max()))
+    outside = np.where((out < qmin) | (out > qmax))[0]
+    if len(outside):
+      i = int(outside[0])
+      run.violation(sig_of(cls, kw, "minmax", "main"), dict(cfg=cfg, x=float(arr[i]), out=float(out[i]), qmin=qmin, qmax=qmax),
+                    dict(cls=cls, kw=kw, clause="minmax", x_bits=int(ir.f32_bits(arr[i]))))
     # and every window point still satisfies the exact python oracle (both neighbours admissible)
     for j in range(0, len(arr), max(1, len(arr) // 400)):
       why = exact_check(arr[j], out[j], fmt)
